@@ -6,6 +6,7 @@ package main
 
 import (
 	"fmt"
+	"os"
 	"go/ast"
 	"go/token"
 	"go/types"
@@ -154,14 +155,25 @@ func (u *Unit) merge2(a, b *State) *State {
 			return false
 		}})
 	}
-	// defers: common prefix (defers registered in only one branch are run by that branch... keep the longer list if prefix)
-	if len(a.defers) >= len(b.defers) {
-		m.defers = append(m.defers, a.defers...)
-	} else {
-		m.defers = append(m.defers, b.defers...)
+	// defers: the common prefix stays; a defer registered on one side only becomes conditional
+	nd := 0
+	for nd < len(a.defers) && nd < len(b.defers) && a.defers[nd] == b.defers[nd] {
+		nd++
 	}
-	if len(a.defers) != len(b.defers) {
-		u.fail("%s: defer registered on only one branch before a join (unsupported)", u.name)
+	m.defers = append(m.defers, a.defers[:nd]...)
+	for _, d := range a.defers[nd:] {
+		g := choice
+		if d.guard.S != "" {
+			g = And(choice, d.guard)
+		}
+		m.defers = append(m.defers, &deferEntry{run: d.run, guard: g})
+	}
+	for _, d := range b.defers[nd:] {
+		g := Not(choice)
+		if d.guard.S != "" {
+			g = And(Not(choice), d.guard)
+		}
+		m.defers = append(m.defers, &deferEntry{run: d.run, guard: g})
 	}
 	return m
 }
@@ -432,6 +444,9 @@ func (u *Unit) execIf(st *State, x *ast.IfStmt) []*Out {
 		st = outs[0].st
 	}
 	c := u.evalCond(st, x.Cond)
+	if u.forceInline != nil && os.Getenv("GOCV_DEBUG") != "" {
+		fmt.Fprintf(os.Stderr, "bounded: symbolic condition %s at %s: %s\n", exprText(x.Cond), u.pos(x.Pos()), c.S)
+	}
 	var outs []*Out
 	if !c.IsFalse() {
 		ts := st.clone()
@@ -774,11 +789,11 @@ func (u *Unit) anchorInRegion(anchor string, nodes []ast.Node) bool {
 					if sel.Sel.Name == "Wait" && anchor == "wait" {
 						found = true
 					}
-					if anchor == "call:"+sel.Sel.Name || anchor == "after:"+sel.Sel.Name {
+					if anchor == "call:"+sel.Sel.Name || anchor == "after:"+sel.Sel.Name || anchor == "before:"+sel.Sel.Name {
 						found = true
 					}
 				}
-				if id, ok := x.Fun.(*ast.Ident); ok && (anchor == "call:"+id.Name || anchor == "after:"+id.Name) {
+				if id, ok := x.Fun.(*ast.Ident); ok && (anchor == "call:"+id.Name || anchor == "after:"+id.Name || anchor == "before:"+id.Name) {
 					found = true
 				}
 			case *ast.ForStmt, *ast.RangeStmt:
